@@ -129,6 +129,42 @@ def Parser.nextClause (p : Parser) : PM (Option Clause × Parser) := do
   skipWhitespace
   nextClauseLoop p ((← get).v.rest.length + 2)
 
+/-- Executable twin of `nextClauseLoop` with the fuel `fl.length + c` kept as `(fl, c)` (see
+`skipLinesLoopFast`). -/
+def nextClauseLoopFast (p : Parser) : VBytes → Nat → PM (Option Clause × Parser)
+  | [], c => nextClauseLoop p c
+  | _ :: fl, c => do
+    let tryClause := (p.clauseCount : Int) != p.clauseLimit || !p.clauseLimitActive
+    let c' ← if tryClause then clauseAlt p else pure none
+    match c' with
+    | some c' => pure (some c', { p with clauseCount := p.clauseCount + 1 })
+    | none =>
+      if ← «matches» comment then nextClauseLoopFast p fl c
+      else if ← «matches» newline then nextClauseLoopFast p fl c
+      else
+        let mayEnd := !p.clauseLimitActive || (p.clauseCount : Int) ≥ p.clauseLimit
+        if mayEnd then
+          if ← «matches» eof then pure (none, p) else unexpected
+        else unexpected
+
+theorem nextClauseLoop_eq_fast (p : Parser) (fl : VBytes) (c : Nat) :
+    nextClauseLoop p (fl.length + c) = nextClauseLoopFast p fl c := by
+  induction fl with
+  | nil => simp only [List.length_nil, Nat.zero_add, nextClauseLoopFast]
+  | cons b fl ih =>
+    have h : (b :: fl).length + c = (fl.length + c) + 1 := by
+      simp only [List.length_cons]; omega
+    rw [h, nextClauseLoop, nextClauseLoopFast, ih]
+
+/-- Executable form of `Parser.nextClause` (no `rest.length`). -/
+def Parser.nextClauseFast (p : Parser) : PM (Option Clause × Parser) := do
+  skipWhitespace
+  nextClauseLoopFast p (← get).v.rest 2
+
+@[csimp] theorem Parser.nextClause_eq_fast : @Parser.nextClause = @Parser.nextClauseFast := by
+  funext p
+  simp only [Parser.nextClause, Parser.nextClauseFast, nextClauseLoop_eq_fast]
+
 /-- Outcome of driving a streaming parser to its final result. -/
 structure Run (ι : Type) where
   header : Option Header := none
@@ -174,6 +210,21 @@ def strictCommentLoop : Nat → PM Unit
   | f + 1 => do
     if ← «matches» interactiveStrictComment then strictCommentLoop f else pure ()
 
+/-- Executable twin of `strictCommentLoop` with the fuel `fl.length + c` kept as `(fl, c)`. -/
+def strictCommentLoopFast : VBytes → Nat → PM Unit
+  | [], c => strictCommentLoop c
+  | _ :: fl, c => do
+    if ← «matches» interactiveStrictComment then strictCommentLoopFast fl c else pure ()
+
+theorem strictCommentLoop_eq_fast (fl : VBytes) (c : Nat) :
+    strictCommentLoop (fl.length + c) = strictCommentLoopFast fl c := by
+  induction fl with
+  | nil => simp only [List.length_nil, Nat.zero_add, strictCommentLoopFast]
+  | cons b fl ih =>
+    have h : (b :: fl).length + c = (fl.length + c) + 1 := by
+      simp only [List.length_cons]; omega
+    rw [h, strictCommentLoop, strictCommentLoopFast, ih]
+
 /-- The `while let Some(lit) = …` loop of a value line. -/
 def valueLoop (l : LitTy) : Nat → LogState → PM LogState
   | 0, _ => rpanic "fuel"
@@ -186,6 +237,30 @@ def valueLoop (l : LitTy) : Nat → LogState → PM LogState
       else if -l.maxDimacs ≤ lit ∧ lit ≤ l.maxDimacs then
         valueLoop l f { st with assignment := l.fromDimacs lit :: st.assignment }
       else exceedsVarCount
+
+/-- Executable twin of `valueLoop` with the fuel `fl.length + c` kept as `(fl, c)`. -/
+def valueLoopFast (l : LitTy) : VBytes → Nat → LogState → PM LogState
+  | [], c, st => valueLoop l c st
+  | _ :: fl, c, st => do
+    setMark
+    match ← litInt with
+    | none => pure st
+    | some lit =>
+      if lit == 0 then pure { st with finished := true }
+      else if -l.maxDimacs ≤ lit ∧ lit ≤ l.maxDimacs then
+        valueLoopFast l fl c { st with assignment := l.fromDimacs lit :: st.assignment }
+      else exceedsVarCount
+
+theorem valueLoop_eq_fast (l : LitTy) (fl : VBytes) (c : Nat) :
+    ∀ st : LogState, valueLoop l (fl.length + c) st = valueLoopFast l fl c st := by
+  induction fl with
+  | nil => intro st; simp only [List.length_nil, Nat.zero_add, valueLoopFast]
+  | cons b fl ih =>
+    intro st
+    have h : (b :: fl).length + c = (fl.length + c) + 1 := by
+      simp only [List.length_cons]; omega
+    rw [h, valueLoop, valueLoopFast]
+    simp only [ih]
 
 /-- The outer `loop` of `parse_log`. -/
 def logLoop (l : LitTy) (ignoreUnknown : Bool) : Nat → LogState → PM LogState
@@ -224,6 +299,60 @@ def logLoop (l : LitTy) (ignoreUnknown : Bool) : Nat → LogState → PM LogStat
 def parseLog (l : LitTy) (ignoreUnknown : Bool) : PM SolverLog := do
   let st ← logLoop l ignoreUnknown ((← get).v.rest.length + 2) {}
   pure { satisfiable := st.satisfiable.join, assignment := st.assignment.reverse }
+
+/-- Executable twin of `logLoop`: the fuel `fl.length + c` kept as `(fl, c)`, and the inner loops
+entered through their fast twins (no `rest.length` per line). -/
+def logLoopFast (l : LitTy) (ignoreUnknown : Bool) : VBytes → Nat → LogState → PM LogState
+  | [], c, st => logLoop l ignoreUnknown c st
+  | _ :: fl, c, st => do
+    strictCommentLoopFast (← get).v.rest 1
+    let isV ← if !st.finished then «matches» (fixed [118, 32]) else pure false
+    if isV then
+      skipWhitespace
+      let st ← valueLoopFast l (← get).v.rest 2 { st with started := true }
+      orGiveUp interactiveEndOfLine unexpected
+      logLoopFast l ignoreUnknown fl c st
+    else
+      let isS ← if st.satisfiable.isNone then «matches» (fixed [115, 32]) else pure false
+      if isS then
+        let sat ← orGiveUp (do
+            let r ← orParse
+              (do match ← fixed [83, 65, 84, 73, 83, 70, 73, 65, 66, 76, 69] with
+                  | some () => pure (some (some true)) | none => pure none)
+              (orParse
+                (do match ← fixed [85, 78, 83, 65, 84, 73, 83, 70, 73, 65, 66, 76, 69] with
+                    | some () => pure (some (some false)) | none => pure none)
+                (do match ← fixed [85, 78, 75, 78, 79, 87, 78] with
+                    | some () => pure (some none) | none => pure none))
+            match r with
+            | some v => do orGiveUp interactiveEndOfLine unexpected; pure (some v)
+            | none => pure none) unexpected
+        logLoopFast l ignoreUnknown fl c { st with satisfiable := some sat }
+      else if ← «matches» eof then
+        if st.started && !st.finished then unexpected else pure st
+      else
+        let skipped ← if ignoreUnknown then «matches» interactiveSkipLine else pure false
+        if skipped then logLoopFast l ignoreUnknown fl c st else unexpected
+
+theorem logLoop_eq_fast (l : LitTy) (ignoreUnknown : Bool) (fl : VBytes) (c : Nat) :
+    ∀ st : LogState, logLoop l ignoreUnknown (fl.length + c) st = logLoopFast l ignoreUnknown fl c st := by
+  induction fl with
+  | nil => intro st; simp only [List.length_nil, Nat.zero_add, logLoopFast]
+  | cons b fl ih =>
+    intro st
+    have h : (b :: fl).length + c = (fl.length + c) + 1 := by
+      simp only [List.length_cons]; omega
+    rw [h, logLoop, logLoopFast]
+    simp only [ih, strictCommentLoop_eq_fast, valueLoop_eq_fast]
+
+/-- Executable form of `parseLog` (no `rest.length`). -/
+def parseLogFast (l : LitTy) (ignoreUnknown : Bool) : PM SolverLog := do
+  let st ← logLoopFast l ignoreUnknown (← get).v.rest 2 {}
+  pure { satisfiable := st.satisfiable.join, assignment := st.assignment.reverse }
+
+@[csimp] theorem parseLog_eq_fast : @parseLog = @parseLogFast := by
+  funext l ignoreUnknown
+  simp only [parseLog, parseLogFast, logLoop_eq_fast]
 
 /-! ### writers -/
 
